@@ -14,10 +14,10 @@ VERIF = os.path.dirname(os.path.dirname(os.path.abspath(__file__)))
 
 class Ob:
     """One proof obligation produced by a rule on one construct."""
-    __slots__ = ("rule", "key", "file", "line", "where", "ok", "msg", "witness", "trivial")
+    __slots__ = ("rule", "key", "file", "line", "where", "ok", "msg", "witness", "trivial", "inconclusive")
 
     def __init__(self, rule: str, key: str, file: str, line: int, where: str, ok: bool, msg: str,
-                 witness: str = "", trivial: bool = False):
+                 witness: str = "", trivial: bool = False, inconclusive: bool = False):
         self.rule = rule          # rule id, e.g. "A2-writeback"
         self.key = key            # stable key of the construct (no line numbers)
         self.file = file
@@ -27,16 +27,26 @@ class Ob:
         self.msg = msg
         self.witness = witness
         self.trivial = trivial
+        # the rule found its anchor but not a shape it can judge: neither discharged nor violated.
+        # Counts as "not a violation" (never an alarm), is reported, and is never counted as discharged.
+        self.inconclusive = inconclusive
+        if inconclusive:
+            self.ok = True
 
     def full_key(self):
         return f"{self.rule}/{self.key}"
 
     def as_dict(self):
         return {"rule": self.rule, "key": self.key, "at": f"{self.file}:{self.line}", "in": self.where,
-                "verdict": "holds" if self.ok else "VIOLATED", "detail": self.msg, "witness": self.witness}
+                "verdict": ("inconclusive" if self.inconclusive else "holds") if self.ok else "VIOLATED", "detail": self.msg, "witness": self.witness}
 
     def __repr__(self):
-        return f"{'ok ' if self.ok else 'BAD'} {self.rule} {self.file}:{self.line} {self.where}: {self.msg}"
+        return f"{('?? ' if self.inconclusive else 'ok ') if self.ok else 'BAD'} {self.rule} {self.file}:{self.line} {self.where}: {self.msg}"
+
+
+def inconclusive(rule: str, key: str, file: str, line: int, where: str, why: str) -> Ob:
+    """obligation for 'anchor present, shape not recognised'"""
+    return Ob(rule, key, file, line, where, True, "INCONCLUSIVE: " + why, inconclusive=True)
 
 
 class Rule:
@@ -297,7 +307,8 @@ def write_evidence(prop: str, tier: str, seed: int, res: Result, repo: Optional[
         "rule": rule_text,
         "samples": samples + [b for b in bad if b not in samples],
         "obligations": len(obs),
-        "discharged": len([o for o in obs if o.ok]),
+        "discharged": len([o for o in obs if o.ok and not o.inconclusive]),
+        "inconclusive": [o.as_dict() for o in obs if o.inconclusive],
         "exhaustive": True,
         "rules": res.rule_stats,
         "units_parsed": len(repo.modules) if repo else 0,
